@@ -365,9 +365,16 @@ pub fn read_all_sched<R: std::io::Read>(r: &mut R, sched: &[usize], cap: usize) 
                 Err(e) => {
                     // a caller may call again after an error: those calls must return as well (whatever they
                     // return); a panic here reaches the caller's catch_unwind, a hang the watchdog
+                    // ... and once a reader has found its input corrupt it must not hand out further bytes as
+                    // decoded data (C04/C05/C06: "error or exactly the original", per call): the oracles treat
+                    // this panic like a panic of the code under test, with the case as the replay
                     for _ in 0..2 {
                         let mut extra = [0u8; 13];
-                        let _ = r.read(&mut extra);
+                        if let Ok(n) = r.read(&mut extra) {
+                            if n > 0 && e.kind() == std::io::ErrorKind::InvalidData {
+                                panic!("read() after an InvalidData error (\"{e}\") returned Ok({n}): bytes handed out as decoded data by {} after it had found the stream corrupt", std::any::type_name::<R>());
+                            }
+                        }
                     }
                     return Err(e);
                 }
